@@ -19,7 +19,7 @@ from entity_query_language import symbolic_mode
 
 from .. import qast as Q
 from .. import worlds as W
-from ..common import X, REPRESENTATIVE_8, REPRESENTATIVE_4, grid_world, exc_obs, root_kind, to_fn_form
+from ..common import X, REPRESENTATIVE_8, REPRESENTATIVE_4, grid_world, exc_obs, root_kind, to_fn_form, leaves_single
 from ..isolate import run_isolated
 from ..space import trees_by_depth, sequences
 from ..worlds import build_world
@@ -62,7 +62,14 @@ def bounds(tier):
 
 def cases(tier, inst):
     thorough = tier == "thorough"
-    trees = [None] + list(trees_by_depth(REPRESENTATIVE_8, 1))
+    # every leaf form of the single-variable vocabulary (alone and negated), then all depth<=1 trees over 8 leaves
+    full = leaves_single()
+    trees = [None] + full + [("not", l) for l in full] + [t for t in trees_by_depth(REPRESENTATIVE_8, 1) if t not in full
+                                                           and not (t[0] == "not" and t[1] in full)]
+    # a leaf of the full vocabulary as the first / second conjunct or disjunct (which operand binds the variable first)
+    for l in full:
+        if l not in REPRESENTATIVE_8:
+            trees += [("and", l, REPRESENTATIVE_8[0]), ("and", REPRESENTATIVE_8[0], l), ("or", l, REPRESENTATIVE_8[2])]
     if thorough:
         trees += [t for t in trees_by_depth(REPRESENTATIVE_4, 2) if Q.depth(t) == 2]
     hists = list(sequences(OPS, 3 if thorough else 2, 1))
